@@ -268,6 +268,29 @@ CHECKS["C17"] = dict(
           "the model abstracts property payloads, nearest-handle selection and automatic splitting. Two known findings (C17-2 depth "
           "unit of getprobleminfo, C17-3 .edge order depends on heap layout in bundled Triangle), two fixed defects."),
     technique="Coq proof over a regenerated command table and a command-semantics model + end-to-end script-vs-file differential runs")
+CHECKS["C04"] = dict(
+    category="proof",
+    text=("26 Coq theorems over a statement-by-statement model of HSolver::AnalyzeProblem / ChargeOnConductor / GetK (AsmH.v, "
+          "KT.v; the prescribed-value, scatter and conductor code is AsmE's, applied to an electrostatic view of the heat "
+          "problem): every assembled row is minus the sum of the local residuals of the elements around it; rows of prescribed "
+          "nodes force the prescribed temperature and free rows keep the un-eliminated residual; element matrices symmetric; the "
+          "conduction part is the Galerkin stiffness with k = mean of the nodal k(T); column sums vanish (heat balance); the "
+          "transient term is the lumped capacity (row sum of the consistent mass matrix) with K*Tprev on the right; flux, "
+          "convection and radiation edges realise their laws (radiation = tangent linearisation, exact at the fixed point); the "
+          "axisymmetric / planar edge weights are the Riemann integrals of r*phi_a*phi_b and r*phi_a (Coquelicot); GetK clamps, "
+          "interpolates linearly and is continuous at interior knots; the nonlinear scan is complete with the repaired bound "
+          "(refuted with a 6-node witness for the former bound); on exit the returned system is the last pass's and the "
+          "100*Precision test accepted it; ChargeOnConductor is the stiffness reaction. Tie: the unmodified AnalyzeProblem is "
+          "run three times by harness/h_hsolver.cpp (genuine run; one pass at the written temperatures; convergence test) and "
+          "the assembled matrix, right-hand side, flags and conductor flows are compared bit for bit with the model's binary64 "
+          "reading (libm pow values are inputs); an independent SI numpy oracle checks the written temperatures incl. transient "
+          "and radiation terms."),
+    design_ref="DESIGN.md §5 C04, §9.6",
+    note=("Trusted: Coq kernel + real-number axioms + classical logic through Coquelicot; hand-written model tied by bit-level "
+          "correspondence; numpy oracle; Triangle, readers, Cuthill not modelled. Not proved: rounding, PCG termination, "
+          "termination of the outer nonlinear loop (no iteration cap in the C++), a global theorem for floating-conductor rows. "
+          "Which variant of the scan bound / conductor-flow scaling the tree has is read from the source on every run."),
+    technique="Coq proof over a hand-written assembly model + bit-exact model/implementation correspondence + independent Galerkin oracle")
 PENDING = {}
 def main():
     props = [json.loads(l) for l in open(os.path.join(V, "properties.jsonl"))]
